@@ -44,7 +44,7 @@ claim("C16", "dominating-call fact on every append to the result + shape of the 
       "DESIGN.md §4 C16")
 
 claim("C18", "table/exhaustiveness rules over the language tables (style reachability, delimiter pairing for all 47 languages, sibling fallback agreement) + lexer consumption typestate and progress analysis on SSA + channel-close path rule",
-      "Decides: every comment style with delimiter rows is reachable from some language and vice versa; multi-line start/end delimiters are paired for every language; the two fallback tables agree; in lex no rune is consumed right after a delimiter without being examined (four (read, origin) pairs fail today and are known findings D8a/D8b - any other pair is a violation); every lexing loop consumes input or exits; the ChunkIterator producer closes its channel on all paths; raw strings have no escape. Agreement with a reference lexer on all strings and the chunk-grouping arithmetic are not decided.",
+      "Decides: every comment style with delimiter rows is reachable from some language and vice versa; multi-line start/end delimiters are paired for every language; the two fallback tables agree; in lex no rune is consumed right after a delimiter without being examined (four (read, origin) pairs failed on the pinned tree - D8a/D8b - and were repaired by a fix: commit; any such pair is a violation); every lexing loop consumes input or exits; the ChunkIterator producer closes its channel on all paths; raw strings have no escape. Agreement with a reference lexer on all strings and the chunk-grouping arithmetic are not decided.",
       STDNOTE + "Tables are read by conditional constant propagation over the SSA form (no repository code runs); a table function that is not a function of constants is reported as undecided (fail).",
       "DESIGN.md §3 E7,E8, §4 C18")
 
